@@ -769,12 +769,14 @@ class BaseOrchestrator(ABC):
         """
         parent_invocation = context.get_dist_invocation_context(self.app.app_id)
         new_invocation = DistributedInvocation.from_parent(call, parent_invocation)
-        self.register_new_invocations([new_invocation])
         if (
             call.task.conf.registration_concurrency != ConcurrencyControlType.DISABLED
             or call.task.conf.running_concurrency != ConcurrencyControlType.DISABLED
         ):
+            # index before registering: registration also queues the invocation, and a
+            # runner that claims it (or a same-key one) must already find it in the index
             self.index_arguments_for_concurrency_control(new_invocation)
+        self.register_new_invocations([new_invocation])
         self.app.logger.info(f"invocation:{new_invocation.invocation_id} ROUTED")
         return new_invocation
 
@@ -887,12 +889,13 @@ class BaseOrchestrator(ABC):
         invocations: list[DistributedInvocation[Params, Result]] = [
             DistributedInvocation.from_parent(call, parent_invocation) for call in calls
         ]
-        self.register_new_invocations(invocations)
         if calls[0].task.conf.running_concurrency != ConcurrencyControlType.DISABLED:
             # same as the single-call path: running concurrency control looks
-            # invocations up by their indexed arguments
+            # invocations up by their indexed arguments, and they have to be in
+            # the index before registration makes them claimable
             for invocation in invocations:
                 self.index_arguments_for_concurrency_control(invocation)
+        self.register_new_invocations(invocations)
         return invocations
 
     @abstractmethod
